@@ -1,7 +1,7 @@
 """Convenience re-exports for rule modules."""
 from . import formula as F
 from .facts import AnalysisBroken, REPO, VERIF
-from .ir import (ANY, V, Program, call_to, call_args, call_obj, callee, calls_in, contains, find, is_call_to, is_expr, match, show,
+from .ir import (ANY, V, Program, call_to, call_targs, call_args, call_obj, callee, calls_in, contains, find, is_call_to, is_expr, match, show,
                  stmt_exprs, stmts, subexprs, undefarg, all_exprs)
 from .ladder import Rung, check_ladder, exits, invalid_call, naming, loop_range_key
 from .paths import (ASSIGN_OPS, Flow, MustFlow, MayFlow, sub_function, all_sites, always_exits, has_break, local_defs, returns, sites, stmt_sites)
